@@ -11,7 +11,10 @@ THEOREMS = ["C08_lookup", "C08_lookup_unique", "C08_isolated_symbol", "C08_isola
             "C08_noninterference", "C08_noninterference_labels", "C08_zderived", "C08_renaming",
             "C08_noninterference_program", "C08_renaming_program_partial",
             "C08_passes_code_blind", "C08_noninterference_program_full", "C08_renaming_program",
-            "C08_export_before_and_after", "C08_emission_keeps_symbols"]
+            "C08_export_before_and_after", "C08_emission_keeps_symbols",
+            # the printer / front-end round trip that lifts the AST-level statements to source text
+            "Front_roundtrip", "Front_assemble_printed", "Front_assemble_ast_printed"]
+PROOF_HEADER = "From A816 Require Import Properties.C08 Properties.FrontEnd."
 RULE = ("generated nestings of blocks, named scopes, macro applications and loops with backward/forward/shadowing/"
         "sibling-reuse placements, plus the full shadowing matrix (outer definition x container x inner definition x reference form, width-inferred operands included); metamorphic twins: consistent renaming of a label, insertion of an unrelated definition "
         "inside another scope (output must not change); out-of-scope references (must be rejected); references to "
@@ -175,3 +178,8 @@ def cases(ctx):
             out.append({"kind": "export-before", "rom": rom, "spec": {"t": "export", "name": "lab"},
                         "src": f"*={org:#08x}\n.dl sc.lab\n.scope sc {{\nnop\nlab:\nnop\n}}\n.dl sc.lab\n"})
     return out
+
+
+def instantiate(gen_q):
+    from .. import frontinst
+    return frontinst.instantiate(gen_q, "c08")
